@@ -75,6 +75,27 @@ fn clear_path() {
     audit(&mut w, &[d], &[ids[0], ids[1], c]);
 }
 
+fn a_of(world: &mut World<R>, id: brood::entity::Identifier) -> u32 {
+    let mut entry = world.entry(id).expect("live identifier has an entry");
+    let result!(a) = entry.query(Query::<Views!(&A)>::new()).expect("entity has A");
+    a.0
+}
+
+#[test]
+fn entry_moves_keep_every_identifier_on_its_own_entity() {
+    let mut w = World::<R>::new();
+    let x = w.insert(entity!(A(10)));
+    let y = w.insert(entity!(A(20)));
+    let z = w.insert(entity!(A(30), B(3)));
+    w.entry(x).unwrap().add(B(1)); // x moves next to z
+    assert_eq!((a_of(&mut w, x), a_of(&mut w, y), a_of(&mut w, z)), (10, 20, 30), "after Entry::add every identifier still names its own entity");
+    w.entry(z).unwrap().remove::<B, _>(); // z moves next to y
+    assert_eq!((a_of(&mut w, x), a_of(&mut w, y), a_of(&mut w, z)), (10, 20, 30), "after Entry::remove every identifier still names its own entity");
+    w.remove(x);
+    audit(&mut w, &[y, z], &[x]);
+    assert_eq!((a_of(&mut w, y), a_of(&mut w, z)), (20, 30), "removing a moved entity removes that entity and no other");
+}
+
 #[test]
 fn entry_add_and_remove_paths() {
     let mut w = World::<R>::new();
